@@ -1,6 +1,7 @@
 import CGV.Props.C04
 import CGV.Props.C04Tree
 import CGV.Props.C04Ring
+import CGV.Props.C04Bare
 #print axioms CGV.C04.C04_read_chain
 #print axioms CGV.C04.matches_chain
 #print axioms CGV.C04.fold_tail
@@ -18,3 +19,6 @@ import CGV.Props.C04Ring
 #print axioms CGV.C04.matches_ring
 #print axioms CGV.C04.fold_rtail
 #print axioms CGV.C04.C04_read_ring
+#print axioms CGV.C04.fold_body
+#print axioms CGV.C04.matches_body
+#print axioms CGV.C04.C04_read_bare_chain
